@@ -262,6 +262,9 @@ Proof.
     destruct v2 as [| | | |[|] ?| | | | | | | |]; try discriminate N2; exact I.
 Qed.
 
+Lemma orel_eq_refl {A} (o : outcome A) : orel eq o o.
+Proof. destruct o as [a|[|t]|m| |w]; try exact I. reflexivity. Qed.
+
 Lemma string_part_func_rel w ps1 ps2 v1 v2 :
   cls v1 v2 -> Forall2 Rp ps1 ps2 -> orel Rv (string_part_func w ps1 v1) (string_part_func w ps2 v2).
 Proof.
@@ -275,8 +278,7 @@ Proof.
                = int_part (if dgt q (mkDec (Z.of_nat (length s)) 0) then mkDec (Z.of_nat (length s)) 0 else q)).
     { destruct (dgt q _); [reflexivity | apply int_part_resp; exact Hpq]. }
     rewrite Hi.
-    match goal with |- orel _ ?x ?x => destruct x as [r|[|t]|m| |z] end; try exact I.
-    apply R_Rv. destruct r; constructor.
+    eapply orel_bind with (P := eq); [apply orel_eq_refl|]. intros r r' <-. apply Rv_str.
   - destruct v1 as [| | | |[|] ?| | | | | | | |]; try discriminate N1;
     destruct v2 as [| | | |[|] ?| | | | | | | |]; try discriminate N2; exact I.
 Qed.
@@ -337,6 +339,654 @@ Proof.
     rewrite S1, S2. destruct (eng_re_replace eng (c :: f) [] repl) as [[out|]|]; try exact I.
     destruct v1 as [| | | |[|] ?| | | | | | | |]; try discriminate N1;
     destruct v2 as [| | | |[|] ?| | | | | | | |]; try discriminate N2; exact I.
+Qed.
+
+
+(** * Count, Any, First, Last, Index *)
+Lemma seq_not_ptr v x : elems_of v = Some x -> is_ptr v = false.
+Proof. destruct v; try discriminate; reflexivity. Qed.
+
+Lemma seq_is_empty v t xs : elems_of v = Some (t, xs) -> is_empty_value (value_of v) = (length xs =? 0)%nat.
+Proof.
+  destruct v as [| | | | | | |t0 n0 ys|t0 ys| | | |]; try discriminate; cbn [elems_of]; intros H; injection H as <- <-; reflexivity.
+Qed.
+
+Lemma seq_elems_deref v t xs : elems_of v = Some (t, xs) -> elems_of (rv_v (deref1 (value_of v))) = Some (t, xs).
+Proof. intros H. rewrite tgt_deref, tgt_not_ptr by (eapply seq_not_ptr; exact H). exact H. Qed.
+
+Lemma seq_empty_guard v x : elems_of v = Some x -> empty_guard (value_of v) = false.
+Proof. destruct v; try discriminate; intros _; unfold empty_guard; cbn; apply andb_false_r. Qed.
+
+Lemma objlike_empty_guard a n fs : objlike_view a n fs -> empty_guard (value_of a) = fs_empty fs.
+Proof.
+  intros Hv. unfold empty_guard. rewrite (objlike_is_empty a n fs Hv).
+  destruct Hv as [kt vt kvs -> _|fs0 -> _ _ _ _|x -> _ _ _ _]; cbn; apply andb_true_r.
+Qed.
+
+Lemma Forall2_len {A B} (P : A -> B -> Prop) l1 l2 : Forall2 P l1 l2 -> length l1 = length l2.
+Proof. induction 1; cbn; congruence. Qed.
+
+Lemma Forall2_nth {A B} (P : A -> B -> Prop) l1 l2 :
+  Forall2 P l1 l2 -> forall i, opt_rel P (nth_error l1 i) (nth_error l2 i).
+Proof.
+  induction 1 as [|x y r1 r2 Hxy Hr IH]; intros [|i]; cbn; try exact I; [exact Hxy | apply IH].
+Qed.
+
+Lemma Rv_elem x y : R x y -> Rv (convert_number x) (convert_number y).
+Proof. intros H. apply R_Rv. apply R_convert_number. exact H. Qed.
+
+Lemma func_count_rel ps1 ps2 v1 v2 :
+  cls v1 v2 -> Forall2 Rp ps1 ps2 -> orel Rv (func_count ps1 v1) (func_count ps2 v2).
+Proof.
+  intros Hc Hp. unfold func_count. rewrite (Rp_len_is ps1 ps2 0 Hp).
+  destruct (negb (len_is ps2 0)); [exact I|].
+  destruct Hc as [|b|s|d1 d2 Hd|v1 v2 t1 t2 xs1 xs2 H1 H2 Hn A1 A2 T1 T2 Hxs|a b n fs1 fs2 Pa Pb H1 H2 Hf].
+  - cbn. apply Rv_dec, deqv_refl.
+  - destruct b; cbn; apply Rv_dec, deqv_refl.
+  - destruct s; cbn; apply Rv_dec, deqv_refl.
+  - cbn. apply Rv_dec, deqv_refl.
+  - rewrite (seq_is_empty v1 t1 xs1 H1), (seq_is_empty v2 t2 xs2 H2), (seq_elems_deref v1 t1 xs1 H1), (seq_elems_deref v2 t2 xs2 H2).
+    rewrite (Forall2_len _ _ _ Hxs). destruct (length xs2 =? 0)%nat; apply Rv_dec, deqv_refl.
+  - pose proof (objlike_inv a n fs1 Pa H1) as V1. pose proof (objlike_inv b n fs2 Pb H2) as V2.
+    rewrite (objlike_elems a n fs1 V1), (objlike_elems b n fs2 V2).
+    destruct (is_empty_value (value_of a)), (is_empty_value (value_of b)); apply Rv_dec, deqv_refl.
+Qed.
+
+Lemma objlike_any a n fs :
+  objlike_view a n fs ->
+  (if is_empty_value (value_of a) then Ok (vbool false) else
+   match rv_v (deref1 (value_of a)) with
+   | VSlice _ _ xs | VArray _ xs => Ok (vbool (negb (length xs =? 0)%nat))
+   | VStruct _ => Ok (vbool (gv_is_zero (rv_v (deref1 (value_of a)))))
+   | VDec d => Declined "Any() on a decimal: IsZero of big.Int internals"
+   | _ => Ok (vbool false)
+   end) = Ok (vbool false).
+Proof.
+  intros Hv. destruct (is_empty_value (value_of a)); [reflexivity|].
+  rewrite tgt_deref.
+  destruct Hv as [kt vt kvs -> _|fs0 -> _ _ _ Hw|x -> _ _ Ho Hw]; cbn [tgt].
+  - reflexivity.
+  - rewrite (nzw_gv_is_zero fs0 Hw). reflexivity.
+  - destruct x; try discriminate Ho; [reflexivity|]. rewrite (nzw_gv_is_zero _ Hw). reflexivity.
+Qed.
+
+Lemma func_any_rel ps1 ps2 v1 v2 :
+  cls v1 v2 -> Forall2 Rp ps1 ps2 -> orel Rv (func_any ps1 v1) (func_any ps2 v2).
+Proof.
+  intros Hc Hp. unfold func_any. rewrite (Rp_len_is ps1 ps2 0 Hp).
+  destruct (negb (len_is ps2 0)); [exact I|].
+  destruct Hc as [|b|s|d1 d2 Hd|v1 v2 t1 t2 xs1 xs2 H1 H2 Hn A1 A2 T1 T2 Hxs|a b n fs1 fs2 Pa Pb H1 H2 Hf].
+  - cbn. apply Rv_bool.
+  - destruct b; cbn; apply Rv_bool.
+  - destruct s; cbn; apply Rv_bool.
+  - cbn. exact I.
+  - rewrite (seq_is_empty v1 t1 xs1 H1), (seq_is_empty v2 t2 xs2 H2).
+    rewrite !tgt_deref, !tgt_not_ptr by (eapply seq_not_ptr; eassumption).
+    pose proof (Forall2_len _ _ _ Hxs) as Hl.
+    assert (E1 : forall v t xs, elems_of v = Some (t, xs) ->
+       match v with
+       | VSlice _ _ xs | VArray _ xs => Ok (vbool (negb (length xs =? 0)%nat))
+       | VStruct _ => Ok (vbool (gv_is_zero v))
+       | VDec d => Declined "Any() on a decimal: IsZero of big.Int internals"
+       | _ => Ok (vbool false)
+       end = Ok (vbool (negb (length xs =? 0)%nat))).
+    { intros v t xs Hv. destruct v; try discriminate Hv; cbn [elems_of] in Hv; injection Hv as _ <-; reflexivity. }
+    rewrite (E1 v1 t1 xs1 H1), (E1 v2 t2 xs2 H2), Hl.
+    destruct (length xs2 =? 0)%nat; apply Rv_bool.
+  - rewrite (objlike_any a n fs1 (objlike_inv a n fs1 Pa H1)), (objlike_any b n fs2 (objlike_inv b n fs2 Pb H2)).
+    apply Rv_bool.
+Qed.
+
+Lemma func_first_rel ps1 ps2 v1 v2 :
+  cls v1 v2 -> Forall2 Rp ps1 ps2 -> orel Rv (func_first ps1 v1) (func_first ps2 v2).
+Proof.
+  intros Hc Hp. unfold func_first. rewrite (Rp_len_is ps1 ps2 0 Hp).
+  destruct (negb (len_is ps2 0)); [exact I|].
+  destruct Hc as [|b|s|d1 d2 Hd|v1 v2 t1 t2 xs1 xs2 H1 H2 Hn A1 A2 T1 T2 Hxs|a b n fs1 fs2 Pa Pb H1 H2 Hf].
+  - cbn. exact I.
+  - destruct b; cbn; [exact I | apply Rv_dec, deqv_refl].
+  - destruct s; cbn; [apply Rv_dec, deqv_refl | exact I].
+  - cbn. exact I.
+  - rewrite (seq_empty_guard v1 _ H1), (seq_empty_guard v2 _ H2), (seq_elems_deref v1 t1 xs1 H1), (seq_elems_deref v2 t2 xs2 H2).
+    destruct Hxs as [|x y r1 r2 Hxy _]; [exact I|]. apply Rv_elem. exact Hxy.
+  - pose proof (objlike_inv a n fs1 Pa H1) as V1. pose proof (objlike_inv b n fs2 Pb H2) as V2.
+    rewrite (objlike_empty_guard a n fs1 V1), (objlike_empty_guard b n fs2 V2), (Rflds_empty fs1 fs2 Hf).
+    rewrite (objlike_elems a n fs1 V1), (objlike_elems b n fs2 V2).
+    destruct (fs_empty fs2); [apply Rv_dec, deqv_refl | exact I].
+Qed.
+
+Lemma func_last_rel ps1 ps2 v1 v2 :
+  cls v1 v2 -> Forall2 Rp ps1 ps2 -> orel Rv (func_last ps1 v1) (func_last ps2 v2).
+Proof.
+  intros Hc Hp. unfold func_last. rewrite (Rp_len_is ps1 ps2 0 Hp).
+  destruct (negb (len_is ps2 0)); [exact I|].
+  destruct Hc as [|b|s|d1 d2 Hd|v1 v2 t1 t2 xs1 xs2 H1 H2 Hn A1 A2 T1 T2 Hxs|a b n fs1 fs2 Pa Pb H1 H2 Hf].
+  - cbn. exact I.
+  - destruct b; cbn; [exact I | apply Rv_dec, deqv_refl].
+  - destruct s; cbn; [apply Rv_dec, deqv_refl | exact I].
+  - cbn. exact I.
+  - rewrite (seq_empty_guard v1 _ H1), (seq_empty_guard v2 _ H2), (seq_elems_deref v1 t1 xs1 H1), (seq_elems_deref v2 t2 xs2 H2).
+    pose proof (Forall2_nth _ _ _ Hxs (length xs2 - 1)) as Hn'. pose proof (Forall2_len _ _ _ Hxs) as Hl.
+    destruct Hxs as [|x y r1 r2 Hxy Hr]; [exact I|]. rewrite Hl.
+    destruct (nth_error (x :: r1) (length (y :: r2) - 1)), (nth_error (y :: r2) (length (y :: r2) - 1)); cbn in Hn'; try contradiction; [|exact I].
+    apply Rv_elem. exact Hn'.
+  - pose proof (objlike_inv a n fs1 Pa H1) as V1. pose proof (objlike_inv b n fs2 Pb H2) as V2.
+    rewrite (objlike_empty_guard a n fs1 V1), (objlike_empty_guard b n fs2 V2), (Rflds_empty fs1 fs2 Hf).
+    rewrite (objlike_elems a n fs1 V1), (objlike_elems b n fs2 V2).
+    destruct (fs_empty fs2); [apply Rv_dec, deqv_refl | exact I].
+Qed.
+
+Lemma func_index_rel ps1 ps2 v1 v2 :
+  cls v1 v2 -> Forall2 Rp ps1 ps2 -> orel Rv (func_index ps1 v1) (func_index ps2 v2).
+Proof.
+  intros Hc Hp. unfold func_index.
+  eapply orel_bind; [apply Rp_first_number; exact Hp|]. intros p q Hpq.
+  destruct Hc as [|b|s|d1 d2 Hd|v1 v2 t1 t2 xs1 xs2 H1 H2 Hn A1 A2 T1 T2 Hxs|a b n fs1 fs2 Pa Pb H1 H2 Hf].
+  - cbn. exact I.
+  - destruct b; cbn; [exact I | apply Rv_dec, deqv_refl].
+  - destruct s; cbn; [apply Rv_dec, deqv_refl | exact I].
+  - cbn. exact I.
+  - rewrite (seq_empty_guard v1 _ H1), (seq_empty_guard v2 _ H2), (seq_elems_deref v1 t1 xs1 H1), (seq_elems_deref v2 t2 xs2 H2).
+    rewrite (Forall2_len _ _ _ Hxs), (dis_neg_resp p q Hpq), (int_part_resp p q Hpq).
+    rewrite (dlt_resp p q _ _ Hpq (deqv_refl (mkDec (Z.of_nat (length xs2)) 0))).
+    destruct (negb (dis_neg q) && dlt q (mkDec (Z.of_nat (length xs2)) 0)); [|exact I].
+    cbv zeta. destruct (int_part q <? 0); [exact I|].
+    pose proof (Forall2_nth _ _ _ Hxs (Z.to_nat (int_part q))) as Hn'.
+    destruct (nth_error xs1 (Z.to_nat (int_part q))), (nth_error xs2 (Z.to_nat (int_part q))); cbn in Hn'; try contradiction; [|exact I].
+    apply Rv_elem. exact Hn'.
+  - pose proof (objlike_inv a n fs1 Pa H1) as V1. pose proof (objlike_inv b n fs2 Pb H2) as V2.
+    rewrite (objlike_empty_guard a n fs1 V1), (objlike_empty_guard b n fs2 V2), (Rflds_empty fs1 fs2 Hf).
+    rewrite (objlike_elems a n fs1 V1), (objlike_elems b n fs2 V2).
+    destruct (fs_empty fs2); [apply Rv_dec, deqv_refl | exact I].
+Qed.
+
+(** * Add, Subtract, Multiply *)
+Lemma cls_dec_or_not v1 v2 :
+  cls v1 v2 -> (exists d1 d2, v1 = VDec d1 /\ v2 = VDec d2 /\ deqv d1 d2) \/ (is_dec v1 = false /\ is_dec v2 = false).
+Proof.
+  intros Hc.
+  destruct Hc as [|b|s|d1 d2 Hd|v1 v2 t1 t2 xs1 xs2 H1 H2 Hn A1 A2 T1 T2 Hxs|a b n fs1 fs2 Pa Pb H1 H2 Hf'];
+    try (right; split; reflexivity).
+  - left. exists d1, d2. repeat split; assumption.
+  - right. destruct v1; try discriminate H1; destruct v2; try discriminate H2; split; reflexivity.
+  - right. pose proof (objlike_opaque a n fs1 (objlike_inv a n fs1 Pa H1)) as O1.
+    pose proof (objlike_opaque b n fs2 (objlike_inv b n fs2 Pb H2)) as O2.
+    destruct a; try discriminate O1; destruct b; try discriminate O2; split; reflexivity.
+Qed.
+
+Lemma func_decimal_rel op ps1 ps2 v1 v2 :
+  op = AAdd \/ op = ASub \/ op = AMul ->
+  cls v1 v2 -> Forall2 Rp ps1 ps2 -> orel Rv (func_decimal op ps1 v1) (func_decimal op ps2 v2).
+Proof.
+  intros Hop Hc Hp. unfold func_decimal.
+  eapply orel_bind; [apply Rp_first_number; exact Hp|]. intros p q Hpq.
+  destruct (cls_dec_or_not v1 v2 Hc) as [[d1 [d2 [-> [-> Hd]]]]|[N1 N2]].
+  - destruct Hop as [->|[->| ->]]; cbn [orel]; apply Rv_dec;
+      [apply dadd_resp | apply dsub_resp | apply dmul_resp]; assumption.
+  - destruct Hop as [->|[->| ->]];
+      destruct v1; try discriminate N1; destruct v2; try discriminate N2; exact I.
+Qed.
+
+(** * AnyOf *)
+Lemma any_of_opaque v l : opaque v = true -> any_of_loop v l = false.
+Proof.
+  intros Ho. induction l as [|p r IH]; [reflexivity|]. cbn [any_of_loop].
+  destruct v as [|[|] ?| | |[|] ?| | | | | | | |]; try discriminate Ho; try exact IH;
+    destruct p as [|[|] ?| | |[|] ?| | | | | | | |]; exact IH.
+Qed.
+
+Lemma any_of_skip_decs v ns rest : is_dec v = false -> any_of_loop v (map VDec ns ++ rest) = any_of_loop v rest.
+Proof.
+  intros Hd. induction ns as [|d r IH]; [reflexivity|]. cbn [map app any_of_loop].
+  destruct v as [|[|] ?| | |[|] ?| | | | | | | |]; try discriminate Hd; exact IH.
+Qed.
+
+Lemma any_of_dec_rest d ss bs :
+  any_of_loop (VDec d) (map (VStr false) ss ++ map (VBool false) bs) = false.
+Proof. destruct ss; [destruct bs|]; reflexivity. Qed.
+
+Lemma any_of_dec_rel d1 d2 ns1 ns2 rest1 rest2 :
+  deqv d1 d2 -> Forall2 deqv ns1 ns2 ->
+  any_of_loop (VDec d1) rest1 = any_of_loop (VDec d2) rest2 ->
+  any_of_loop (VDec d1) (map VDec ns1 ++ rest1) = any_of_loop (VDec d2) (map VDec ns2 ++ rest2).
+Proof.
+  intros Hd Hn Hr. induction Hn as [|x y r1 r2 Hxy _ IH]; [exact Hr|].
+  cbn [map app any_of_loop]. rewrite (deq_resp d1 d2 x y Hd Hxy). destruct (deq d2 y); [reflexivity | exact IH].
+Qed.
+
+Lemma func_any_of_rel ps1 ps2 v1 v2 :
+  cls v1 v2 -> Forall2 Rp ps1 ps2 -> orel Rv (func_any_of ps1 v1) (func_any_of ps2 v2).
+Proof.
+  intros Hc Hp. unfold func_any_of, params_get_all. cbn [orel].
+  rewrite (Rp_strings ps1 ps2 Hp), (Rp_bools ps1 ps2 Hp).
+  pose proof (Rp_numbers ps1 ps2 Hp) as Hn.
+  assert (E : any_of_loop v1 (map VDec (numbers ps1) ++ map (VStr false) (strings ps2) ++ map (VBool false) (bools ps2))
+            = any_of_loop v2 (map VDec (numbers ps2) ++ map (VStr false) (strings ps2) ++ map (VBool false) (bools ps2))).
+  { destruct Hc as [|b|s|d1 d2 Hd|v1 v2 t1 t2 xs1 xs2 H1 H2 Hn' A1 A2 T1 T2 Hxs|a b n fs1 fs2 Pa Pb H1 H2 Hf].
+    - rewrite !any_of_opaque by reflexivity. reflexivity.
+    - rewrite !any_of_skip_decs by reflexivity. reflexivity.
+    - rewrite !any_of_skip_decs by reflexivity. reflexivity.
+    - apply any_of_dec_rel; [exact Hd | exact Hn|]. rewrite !any_of_dec_rest. reflexivity.
+    - rewrite !any_of_opaque by (eapply seq_opaque; eassumption). reflexivity.
+    - rewrite !any_of_opaque by (eapply objlike_opaque; apply objlike_inv; eassumption). reflexivity. }
+  rewrite E. apply Rv_bool.
+Qed.
+
+(** * IsNull, IsEmpty and their negations *)
+Lemma seq_cmp_zero v t xs : elems_of v = Some (t, xs) -> arr_ok v -> cmp_is_zero v = match xs with [] => true | _ => false end.
+Proof.
+  destruct v as [| | | | | | |t0 n0 ys|t0 ys| | | |]; try discriminate; cbn [elems_of]; intros H; injection H as <- <-.
+  - intros _. reflexivity.
+  - destruct ys; [reflexivity|]. intros H. exact H.
+Qed.
+
+Lemma cls_cmp_zero v1 v2 : cls v1 v2 -> cmp_is_zero v1 = cmp_is_zero v2.
+Proof.
+  intros Hc.
+  destruct Hc as [|b|s|d1 d2 Hd|v1 v2 t1 t2 xs1 xs2 H1 H2 Hn A1 A2 T1 T2 Hxs|a b n fs1 fs2 Pa Pb H1 H2 Hf]; try reflexivity.
+  - apply (dis_zero_resp d1 d2 Hd).
+  - rewrite (seq_cmp_zero v1 t1 xs1 H1 A1), (seq_cmp_zero v2 t2 xs2 H2 A2). destruct Hxs; reflexivity.
+  - rewrite (objlike_cmp_zero a n fs1 (objlike_inv a n fs1 Pa H1)), (objlike_cmp_zero b n fs2 (objlike_inv b n fs2 Pb H2)).
+    apply Rflds_empty. exact Hf.
+Qed.
+
+Lemma cls_is_nil v1 v2 : cls v1 v2 -> is_nil v1 = is_nil v2.
+Proof. intros Hc. apply (Rv_is_nil st pt). apply cls_Rv. exact Hc. Qed.
+
+Lemma func_is_null_rel ps1 ps2 v1 v2 :
+  cls v1 v2 -> Forall2 Rp ps1 ps2 -> orel eq (func_is_null ps1 v1) (func_is_null ps2 v2).
+Proof.
+  intros Hc Hp. unfold func_is_null. rewrite (Rp_len_is ps1 ps2 0 Hp), (cls_is_nil v1 v2 Hc).
+  destruct (negb (len_is ps2 0)); [exact I | reflexivity].
+Qed.
+
+Lemma func_is_empty_rel ps1 ps2 v1 v2 :
+  cls v1 v2 -> Forall2 Rp ps1 ps2 -> orel eq (func_is_empty ps1 v1) (func_is_empty ps2 v2).
+Proof.
+  intros Hc Hp. unfold func_is_empty. rewrite (Rp_len_is ps1 ps2 0 Hp), (cls_cmp_zero v1 v2 Hc).
+  destruct (negb (len_is ps2 0)); [exact I | reflexivity].
+Qed.
+
+Lemma func_is_null_or_empty_rel ps1 ps2 v1 v2 :
+  cls v1 v2 -> Forall2 Rp ps1 ps2 -> orel eq (func_is_null_or_empty ps1 v1) (func_is_null_or_empty ps2 v2).
+Proof.
+  intros Hc Hp. unfold func_is_null_or_empty.
+  rewrite (Rp_len_is ps1 ps2 0 Hp), (cls_cmp_zero v1 v2 Hc), (cls_is_nil v1 v2 Hc).
+  destruct (negb (len_is ps2 0)); [exact I | reflexivity].
+Qed.
+
+
+(** * Sum, Minimum, Maximum (objects are maps, no pointers) *)
+Definition pnums (ps : list rparam) : list dec := numbers ps ++ filter_map string_number (strings ps).
+
+Definition agg_out (a : agg) (o : option (list dec)) : outcome gv :=
+  match o with
+  | None => fail "not an array of numbers"
+  | Some [] => Ok (VDec dzero)
+  | Some [d] => Ok (VDec d)
+  | Some (d :: rest) => Ok (VDec (run_agg a d rest))
+  end.
+
+Lemma pnums_rel ps1 ps2 : Forall2 Rp ps1 ps2 -> Forall2 deqv (pnums ps1) (pnums ps2).
+Proof.
+  intros Hp. unfold pnums. rewrite (Rp_strings ps1 ps2 Hp).
+  apply Forall2_app; [apply Rp_numbers; exact Hp | apply Forall2_deqv_refl].
+Qed.
+
+Lemma elem_number_numv v d : numv v = Some d -> elem_number v = Some d.
+Proof.
+  destruct v as [| | k nm z | i nm f | | | | | | | | |]; try discriminate; cbn [numv].
+  - intros H; injection H as <-. unfold elem_number. rewrite cnc_not_ptr by reflexivity. reflexivity.
+  - destruct f; try discriminate. intros H; injection H as <-.
+    unfold elem_number. rewrite cnc_not_ptr by reflexivity. reflexivity.
+  - intros H; injection H as <-. reflexivity.
+Qed.
+
+Lemma elem_number_rel x y : R x y -> opt_rel deqv (elem_number x) (elem_number y).
+Proof.
+  intros H.
+  destruct (R_shape st x y H) as [|b0|s|v1 v2 d1 d2 H1 H2 Hd He|v1 v2 t1 t2 xs1 xs2 H1 H2 _ _ _ _ _ _|v1 v2 n fs1 fs2 H1 H2 _].
+  - unfold elem_number. rewrite cnc_not_ptr by reflexivity. exact I.
+  - unfold elem_number. rewrite cnc_not_ptr by reflexivity. exact I.
+  - unfold elem_number. rewrite cnc_not_ptr by reflexivity. destruct (dec_of_string s); [apply deqv_refl | exact I].
+  - rewrite (elem_number_numv v1 d1 H1), (elem_number_numv v2 d2 H2). exact Hd.
+  - destruct v1; try discriminate H1; destruct v2; try discriminate H2;
+      unfold elem_number; rewrite !cnc_not_ptr by reflexivity; exact I.
+  - destruct v1; try discriminate H1; destruct v2; try discriminate H2;
+      unfold elem_number; rewrite !cnc_not_ptr by reflexivity; exact I.
+Qed.
+
+Lemma elems_numbers_rel xs ys :
+  Forall2 R xs ys -> opt_rel (Forall2 deqv) (all_some (map elem_number xs)) (all_some (map elem_number ys)).
+Proof.
+  intros H. apply all_some_rel. apply (Forall2_map _ _ _ _ xs ys elem_number_rel H).
+Qed.
+
+Lemma decsel_elem_number xs :
+  Forall (fun x => is_dec x = true) xs ->
+  all_some (map (fun x => match x with VDec d => Some d | _ => None end) xs) = all_some (map elem_number xs).
+Proof.
+  induction 1 as [|x r Hx Hr IH]; [reflexivity|].
+  destruct x; try discriminate Hx. cbn [map all_some elem_number]. rewrite IH. reflexivity.
+Qed.
+
+Lemma fds_seq a ps v t xs :
+  elems_of v = Some (t, xs) -> tag_ok t xs ->
+  exists b : bool,
+    func_decimal_slice a ps v =
+    agg_out a (option_map (fun ds => if b then ds ++ pnums ps else pnums ps ++ ds) (all_some (map elem_number xs))).
+Proof.
+  intros He Ht.
+  destruct v as [| | | | | | |t0 n0 ys|t0 ys| | | |]; try discriminate He; cbn [elems_of] in He; injection He as <- <-.
+  - destruct t0; try (exists false; unfold func_decimal_slice, agg_out, pnums; destruct (all_some (map elem_number ys)) as [[|d [|e r]]|]; reflexivity).
+    exists true. unfold func_decimal_slice. cbv zeta. rewrite (decsel_elem_number ys (Ht eq_refl)).
+    unfold agg_out, pnums. destruct (all_some (map elem_number ys)) as [l|]; reflexivity.
+  - exists false. unfold func_decimal_slice, agg_out, pnums. destruct (all_some (map elem_number ys)) as [l|]; reflexivity.
+Qed.
+
+Lemma mfields_snd kvs fs : mfields kvs = Some fs -> map snd kvs = map snd fs.
+Proof.
+  revert fs. induction kvs as [|[k v] r IH]; intros fs H; cbn [mfields] in H.
+  - injection H as <-. reflexivity.
+  - destruct (mkey k); [|discriminate]. destruct (mfields r) as [l|]; [|discriminate].
+    injection H as <-. cbn. f_equal. apply IH. reflexivity.
+Qed.
+
+Lemma fds_map a ps kt vt n kvs fs :
+  mfields kvs = Some fs ->
+  func_decimal_slice a ps (VMap kt vt n kvs) =
+  agg_out a (option_map (fun ds => pnums ps ++ ds) (all_some (map elem_number (map snd fs)))).
+Proof.
+  intros Hm. rewrite <- (mfields_snd kvs fs Hm).
+  unfold func_decimal_slice, agg_out, pnums. destruct (all_some (map elem_number (map snd kvs))) as [l|]; reflexivity.
+Qed.
+
+Definition agg_val (a : agg) (l : list dec) : dec :=
+  match a with AggSum => sum_of l | AggMin => min_of l | AggMax => max_of l | AggAvg => dzero end.
+
+Lemma agg_out_val a l : a <> AggAvg -> agg_out a (Some l) = Ok (VDec (agg_val a l)).
+Proof. intros Ha. destruct a; try (contradiction Ha; reflexivity); destruct l as [|d [|e r]]; reflexivity. Qed.
+
+Lemma agg_out_rel a l1 l2 : a <> AggAvg -> lrel l1 l2 -> orel Rv (agg_out a (Some l1)) (agg_out a (Some l2)).
+Proof.
+  intros Ha Hl. rewrite !agg_out_val by exact Ha. cbn [orel]. apply Rv_dec.
+  destruct a; try (contradiction Ha; reflexivity); cbn [agg_val];
+    [apply lrel_sum | apply lrel_min | apply lrel_max]; exact Hl.
+Qed.
+
+Lemma agg_out_opt_rel a (b1 b2 : bool) o1 o2 p1 p2 :
+  a <> AggAvg -> opt_rel (Forall2 deqv) o1 o2 -> Forall2 deqv p1 p2 ->
+  orel Rv (agg_out a (option_map (fun ds => if b1 then ds ++ p1 else p1 ++ ds) o1))
+          (agg_out a (option_map (fun ds => if b2 then ds ++ p2 else p2 ++ ds) o2)).
+Proof.
+  intros Ha Ho Hp. destruct o1 as [l1|], o2 as [l2|]; cbn in Ho; try contradiction; [|exact I].
+  cbn [option_map]. apply agg_out_rel; [exact Ha|].
+  destruct b1, b2; [apply lrel_app | apply lrel_app_comm | apply lrel_app_comm | apply lrel_app]; assumption.
+Qed.
+
+Lemma fcv_false v : st = false -> fcv st v = v.
+Proof. intros H. unfold fcv. rewrite H. reflexivity. Qed.
+
+Lemma Rflds_values fs1 fs2 : st = false -> Rflds fs1 fs2 -> Forall2 R (map snd fs1) (map snd fs2).
+Proof.
+  intros Hst H. induction H as [|[k1 v1] [k2 v2] r1 r2 [_ [Hv _]] _ IH]; [constructor|].
+  cbn [map snd] in *. constructor; [|exact IH]. rewrite !(fcv_false _ Hst) in Hv. exact Hv.
+Qed.
+
+Lemma objlike_map_only a n fs :
+  st = false -> pt = false -> pok a -> objv (tgt a) = Some (n, fs) ->
+  exists kt vt kvs, a = VMap kt vt n kvs /\ mfields kvs = Some fs.
+Proof.
+  intros Hst Hpt Pa Ho. destruct (objlike_inv a n fs Pa Ho) as [kt vt kvs E Hm|fs0 _ _ _ Est _|x E _ _ _ _].
+  - exists kt, vt, kvs. split; assumption.
+  - congruence.
+  - subst a. cbn in Pa. destruct Pa as [Pa _]. congruence.
+Qed.
+
+Lemma func_decimal_slice_rel a ps1 ps2 v1 v2 :
+  st = false -> pt = false -> a <> AggAvg ->
+  cls v1 v2 -> Forall2 Rp ps1 ps2 -> orel Rv (func_decimal_slice a ps1 v1) (func_decimal_slice a ps2 v2).
+Proof.
+  intros Hst Hpt Ha Hc Hp. pose proof (pnums_rel ps1 ps2 Hp) as Hpn.
+  destruct Hc as [|b|s|d1 d2 Hd|v1 v2 t1 t2 xs1 xs2 H1 H2 Hn A1 A2 T1 T2 Hxs|x y n fs1 fs2 Pa Pb H1 H2 Hf].
+  - cbn. apply Rv_dec, deqv_refl.
+  - cbn. apply Rv_dec, deqv_refl.
+  - cbn. apply Rv_dec, deqv_refl.
+  - change (func_decimal_slice a ps1 (VDec d1)) with (agg_out a (Some ([d1] ++ pnums ps1))).
+    change (func_decimal_slice a ps2 (VDec d2)) with (agg_out a (Some ([d2] ++ pnums ps2))).
+    apply agg_out_rel; [exact Ha|]. apply lrel_app; [constructor; [exact Hd | constructor] | exact Hpn].
+  - destruct (fds_seq a ps1 v1 t1 xs1 H1 T1) as [b1 ->], (fds_seq a ps2 v2 t2 xs2 H2 T2) as [b2 ->].
+    apply agg_out_opt_rel; [exact Ha | apply elems_numbers_rel; exact Hxs | exact Hpn].
+  - destruct (objlike_map_only x n fs1 Hst Hpt Pa H1) as [kt1 [vt1 [kvs1 [-> M1]]]].
+    destruct (objlike_map_only y n fs2 Hst Hpt Pb H2) as [kt2 [vt2 [kvs2 [-> M2]]]].
+    rewrite (fds_map a ps1 kt1 vt1 n kvs1 fs1 M1), (fds_map a ps2 kt2 vt2 n kvs2 fs2 M2).
+    apply (agg_out_opt_rel a false false); [exact Ha | | exact Hpn].
+    apply elems_numbers_rel. apply Rflds_values; assumption.
+Qed.
+
+(** * AsArray (no pointers) *)
+Lemma as_array_rel v1 v2 : pt = false -> cls v1 v2 -> Rv (VSlice EAny false [v1]) (VSlice EAny false [v2]).
+Proof.
+  intros Hpt Hc. apply R_Rv. eapply R_seq; try reflexivity; try exact I; try (intros E; discriminate E).
+  constructor; [|constructor]. apply (Rv_no_pt st pt); [exact Hpt | apply cls_Rv; exact Hc].
+Qed.
+
+(** * RemoveKeysBy... (objects are maps) *)
+Lemma F2_cons_inv {A B} (P : A -> B -> Prop) x y l1 l2 : Forall2 P (x :: l1) (y :: l2) -> P x y /\ Forall2 P l1 l2.
+Proof. intros H. inversion H. split; assumption. Qed.
+
+Fixpoint rkf (keep : str -> option bool) (kvs : list (gv * gv)) : option (list (gv * gv)) :=
+  match kvs with
+  | [] => Some []
+  | kv :: r =>
+    match key_string (fst kv) with
+    | None => option_map (cons kv) (rkf keep r)
+    | Some ks =>
+      match keep ks with
+      | None => None
+      | Some true => option_map (cons kv) (rkf keep r)
+      | Some false => rkf keep r
+      end
+    end
+  end.
+
+Definition rk_step (keep : str -> option bool) (acc : option (list (gv * gv))) (kv : gv * gv) :=
+  match acc with
+  | None => None
+  | Some l =>
+    match key_string (fst kv) with
+    | None => Some (l ++ [kv])
+    | Some ks => match keep ks with
+                 | None => None
+                 | Some true => Some (l ++ [kv])
+                 | Some false => Some l
+                 end
+    end
+  end.
+
+Lemma rk_fold_none keep kvs : fold_left (rk_step keep) kvs None = None.
+Proof. induction kvs as [|kv r IH]; [reflexivity | exact IH]. Qed.
+
+Lemma rk_fold keep kvs acc :
+  fold_left (rk_step keep) kvs (Some acc) = option_map (app acc) (rkf keep kvs).
+Proof.
+  revert acc. induction kvs as [|kv r IH]; intros acc; cbn [fold_left rkf].
+  - cbn. rewrite app_nil_r. reflexivity.
+  - unfold rk_step at 2. destruct (key_string (fst kv)) as [ks|].
+    + destruct (keep ks) as [[|]|].
+      * rewrite IH. destruct (rkf keep r); cbn; [rewrite <- app_assoc; reflexivity | reflexivity].
+      * apply IH.
+      * apply rk_fold_none.
+    + rewrite IH. destruct (rkf keep r); cbn; [rewrite <- app_assoc; reflexivity | reflexivity].
+Qed.
+
+Lemma remove_keys_map keep a kt vt n kvs :
+  tgt a = VMap kt vt n kvs ->
+  remove_keys keep a = match rkf keep kvs with Some l => Ok (VMap kt vt false l) | None => Declined "regexp oracle miss" end.
+Proof.
+  intros Ht. unfold remove_keys. rewrite tgt_deref, Ht.
+  change (fold_left _ kvs (Some [])) with (fold_left (rk_step keep) kvs (Some [])).
+  rewrite rk_fold. destruct (rkf keep kvs); reflexivity.
+Qed.
+
+Lemma rkf_rel keep : st = false -> forall kvs1 kvs2 fs1 fs2,
+  mfields kvs1 = Some fs1 -> mfields kvs2 = Some fs2 -> Rflds fs1 fs2 ->
+  match rkf keep kvs1, rkf keep kvs2 with
+  | Some l1, Some l2 => exists g1 g2, mfields l1 = Some g1 /\ mfields l2 = Some g2 /\ Rflds g1 g2
+  | None, None => True
+  | _, _ => False
+  end.
+Proof.
+  intros Hst. induction kvs1 as [|[k1 v1] r1 IH]; intros kvs2 fs1 fs2 M1 M2 Hf.
+  - cbn in M1. injection M1 as <-. destruct fs2 as [|b2 rb2]; [|inversion Hf].
+    destruct kvs2 as [|[k2 v2] r2]; [|cbn in M2; destruct (mkey k2); [destruct (mfields r2)|]; discriminate M2].
+    cbn. exists [], []. repeat split; constructor.
+  - cbn [mfields] in M1. destruct (mkey k1) as [s1|] eqn:K1; [|discriminate]. destruct (mfields r1) as [l1|] eqn:E1; [|discriminate].
+    injection M1 as <-. destruct fs2 as [|b rb]; [inversion Hf|].
+    apply F2_cons_inv in Hf. destruct Hf as [[Hk Hv] Hr].
+    destruct kvs2 as [|[k2 v2] r2]; [discriminate M2|]. cbn [mfields] in M2.
+    destruct (mkey k2) as [s2|] eqn:K2; [|discriminate]. destruct (mfields r2) as [l2|] eqn:E2; [|discriminate].
+    injection M2 as <- <-. cbn [fst snd] in Hk, Hv.
+    unfold keq in Hk. rewrite Hst in Hk. subst s2.
+    specialize (IH r2 l1 l2 eq_refl E2 Hr).
+    cbn [rkf fst]. rewrite (mkey_key_string k1 s1 K1), (mkey_key_string k2 s1 K2).
+    destruct (keep s1) as [[|]|]; [|exact IH|exact I].
+    destruct (rkf keep r1) as [m1|], (rkf keep r2) as [m2|]; try contradiction; [|exact I].
+    destruct IH as [g1 [g2 [G1 [G2 Hg]]]]. cbn [option_map].
+    exists ((s1, v1) :: g1), ((s1, v2) :: g2). cbn [mfields]. rewrite K1, K2, G1, G2.
+    repeat split. constructor; [|exact Hg]. split; [unfold keq; rewrite Hst; reflexivity | exact Hv].
+Qed.
+
+Lemma objlike_tgt_map a n fs :
+  st = false -> pok a -> objv (tgt a) = Some (n, fs) ->
+  exists kt vt kvs, tgt a = VMap kt vt n kvs /\ mfields kvs = Some fs.
+Proof.
+  intros Hst Pa Ho. destruct (tgt a) as [| | | | | | | | |kt vt m kvs|fs0| |]; try discriminate Ho; cbn [C10b.objv] in Ho.
+  - destruct (mfields kvs) as [l|] eqn:El; [|discriminate]. cbn in Ho. injection Ho as <- <-.
+    exists kt, vt, kvs. split; [reflexivity | exact El].
+  - rewrite Hst in Ho. discriminate Ho.
+Qed.
+
+Lemma remove_keys_nonobj keep v : is_ptr v = false -> is_obj v = false -> exists t, remove_keys keep v = fail t.
+Proof.
+  intros Hp Ho. unfold remove_keys. rewrite tgt_deref, tgt_not_ptr by exact Hp.
+  destruct v; try discriminate Ho; eexists; reflexivity.
+Qed.
+
+Lemma remove_keys_rel keep v1 v2 :
+  st = false -> cls v1 v2 -> orel Rv (remove_keys keep v1) (remove_keys keep v2).
+Proof.
+  intros Hst Hc.
+  assert (Hno : forall w1 w2, is_ptr w1 = false -> is_obj w1 = false -> is_ptr w2 = false -> is_obj w2 = false ->
+                orel Rv (remove_keys keep w1) (remove_keys keep w2)).
+  { intros w1 w2 P1 O1 P2 O2.
+    destruct (remove_keys_nonobj keep w1 P1 O1) as [t1 ->], (remove_keys_nonobj keep w2 P2 O2) as [t2 ->]. exact I. }
+  destruct Hc as [|b|s|d1 d2 Hd|v1 v2 t1 t2 xs1 xs2 H1 H2 Hn A1 A2 T1 T2 Hxs|x y n fs1 fs2 Pa Pb H1 H2 Hf];
+    try (apply Hno; reflexivity).
+  - destruct v1; try discriminate H1; destruct v2; try discriminate H2; apply Hno; reflexivity.
+  - destruct (objlike_tgt_map x n fs1 Hst Pa H1) as [kt1 [vt1 [kvs1 [T1 M1]]]].
+    destruct (objlike_tgt_map y n fs2 Hst Pb H2) as [kt2 [vt2 [kvs2 [T2 M2]]]].
+    rewrite (remove_keys_map keep x kt1 vt1 n kvs1 T1), (remove_keys_map keep y kt2 vt2 n kvs2 T2).
+    pose proof (rkf_rel keep Hst kvs1 kvs2 fs1 fs2 M1 M2 Hf) as Hr.
+    destruct (rkf keep kvs1) as [l1|], (rkf keep kvs2) as [l2|]; try contradiction; [|exact I].
+    destruct Hr as [g1 [g2 [G1 [G2 Hg]]]]. cbn [orel]. apply R_Rv.
+    apply R_obj with (n := false) (fs1 := g1) (fs2 := g2); [cbn; rewrite G1; reflexivity | cbn; rewrite G2; reflexivity | exact Hg].
+Qed.
+
+Lemma func_remove_keys_by_rel how ps1 ps2 v1 v2 :
+  st = false -> cls v1 v2 -> Forall2 Rp ps1 ps2 ->
+  orel Rv (func_remove_keys_by eng how ps1 v1) (func_remove_keys_by eng how ps2 v2).
+Proof.
+  intros Hst Hc Hp. unfold func_remove_keys_by. rewrite (Rp_len_is ps1 ps2 1 Hp), (Rp_first_string ps1 ps2 Hp).
+  destruct (negb (len_is ps2 1)); [exact I|].
+  destruct (params_first_string ps2) as [p|[|t]|m| |w]; cbn [bind]; try exact I.
+  destruct (String.eqb how "Regex").
+  - destruct (eng_re_match eng p []) as [[b|]|]; try exact I. apply remove_keys_rel; assumption.
+  - destruct (String.eqb how "Prefix"); apply remove_keys_rel; assumption.
+Qed.
+
+
+(** * The dispatcher *)
+Definition common_funcs : list string :=
+  ["Equal"; "NotEqual"; "Less"; "LessOrEqual"; "Greater"; "GreaterOrEqual"; "Invert"; "Not";
+   "Contains"; "NotContains"; "Prefix"; "NotPrefix"; "Suffix"; "NotSuffix";
+   "Count"; "Any"; "First"; "Last"; "Index"; "Add"; "Subtract"; "Multiply"; "AnyOf";
+   "TrimRight"; "TrimLeft"; "Right"; "Left"; "DoesMatchRegex"; "ReplaceRegex"; "ReplaceAll";
+   "IsNull"; "IsNotNull"; "IsEmpty"; "IsNotEmpty"; "IsNullOrEmpty"; "IsNotNullOrEmpty"]%string.
+Definition noptr_funcs : list string := ["AsArray"]%string.
+Definition mapobj_funcs : list string := ["RemoveKeysByRegex"; "RemoveKeysByPrefix"; "RemoveKeysBySuffix"]%string.
+Definition mapobj_noptr_funcs : list string := ["Sum"; "Minimum"; "Maximum"]%string.
+
+Definition mem (k : string) (l : list string) : bool := existsb (String.eqb k) l.
+
+(** the functions (by funcMap key) admitted in mode [st], [pt]; Select is
+    admitted separately by the evaluator's fragment *)
+Definition allowed (k : string) : bool :=
+  mem k common_funcs || (negb pt && mem k noptr_funcs) || (negb st && mem k mapobj_funcs)
+  || (negb st && negb pt && mem k mapobj_noptr_funcs).
+
+Lemma mem_In k l : mem k l = true -> In k l.
+Proof.
+  unfold mem. induction l as [|x l IH]; cbn [existsb]; [discriminate|].
+  intros H. apply orb_true_iff in H. destruct H as [H|H]; [left; symmetry; apply String.eqb_eq; exact H | right; apply IH; exact H].
+Qed.
+
+Ltac rf := lazy beta iota zeta delta [run_func String.eqb Ascii.eqb Bool.eqb].
+
+Theorem run_func_rel k ps1 ps2 v1 v2 :
+  allowed k = true -> cls v1 v2 -> Forall2 Rp ps1 ps2 ->
+  orel Rv (run_func eng k ps1 v1) (run_func eng k ps2 v2).
+Proof.
+  intros Ha Hc Hp. unfold allowed in Ha.
+  apply orb_true_iff in Ha. destruct Ha as [Ha|Ha]; [apply orb_true_iff in Ha; destruct Ha as [Ha|Ha]; [apply orb_true_iff in Ha; destruct Ha as [Ha|Ha]|]|].
+  - apply mem_In in Ha. unfold common_funcs in Ha. cbn [In] in Ha.
+    repeat (destruct Ha as [<-|Ha]); [..|destruct Ha]; rf.
+    + apply orel_boolv, func_equal_rel; assumption.
+    + apply orel_negate, func_equal_rel; assumption.
+    + apply decimal_bool_func_rel; [apply dlt_resp | assumption | assumption].
+    + apply decimal_bool_func_rel; [apply dle_resp | assumption | assumption].
+    + apply decimal_bool_func_rel; [apply dgt_resp | assumption | assumption].
+    + apply decimal_bool_func_rel; [apply dge_resp | assumption | assumption].
+    + apply func_invert_rel; assumption.
+    + apply func_not_rel; assumption.
+    + apply string_bool_func_rel; assumption.
+    + apply string_bool_func_rel; assumption.
+    + apply string_bool_func_rel; assumption.
+    + apply string_bool_func_rel; assumption.
+    + apply string_bool_func_rel; assumption.
+    + apply string_bool_func_rel; assumption.
+    + apply func_count_rel; assumption.
+    + apply func_any_rel; assumption.
+    + apply func_first_rel; assumption.
+    + apply func_last_rel; assumption.
+    + apply func_index_rel; assumption.
+    + apply func_decimal_rel; [left; reflexivity | assumption | assumption].
+    + apply func_decimal_rel; [right; left; reflexivity | assumption | assumption].
+    + apply func_decimal_rel; [right; right; reflexivity | assumption | assumption].
+    + apply func_any_of_rel; assumption.
+    + apply string_part_func_rel; assumption.
+    + apply string_part_func_rel; assumption.
+    + apply string_part_func_rel; assumption.
+    + apply string_part_func_rel; assumption.
+    + apply func_does_match_regex_rel; assumption.
+    + apply func_replace_regex_rel; assumption.
+    + apply func_replace_all_rel; assumption.
+    + apply orel_boolv, func_is_null_rel; assumption.
+    + apply orel_negate, func_is_null_rel; assumption.
+    + apply orel_boolv, func_is_empty_rel; assumption.
+    + apply orel_negate, func_is_empty_rel; assumption.
+    + apply orel_boolv, func_is_null_or_empty_rel; assumption.
+    + apply orel_negate, func_is_null_or_empty_rel; assumption.
+  - apply andb_true_iff in Ha. destruct Ha as [Hpt Ha]. apply negb_true_iff in Hpt.
+    apply mem_In in Ha. cbn [In noptr_funcs] in Ha. destruct Ha as [<-|[]]. rf.
+    cbn [orel]. apply as_array_rel; assumption.
+  - apply andb_true_iff in Ha. destruct Ha as [Hst Ha]. apply negb_true_iff in Hst.
+    apply mem_In in Ha. cbn [In mapobj_funcs] in Ha. destruct Ha as [<-|[<-|[<-|[]]]]; rf;
+      apply func_remove_keys_by_rel; assumption.
+  - apply andb_true_iff in Ha. destruct Ha as [Hm Ha]. apply andb_true_iff in Hm. destruct Hm as [Hst Hpt].
+    apply negb_true_iff in Hst. apply negb_true_iff in Hpt.
+    apply mem_In in Ha. cbn [In mapobj_noptr_funcs] in Ha. destruct Ha as [<-|[<-|[<-|[]]]]; rf;
+      apply func_decimal_slice_rel; try assumption; discriminate.
 Qed.
 
 End Mode.
